@@ -34,8 +34,10 @@ def stopping_plan(prop, ctx, with_t3=False, with_x=True):
     P.append(sweep.family_shards(prop, "U-P2", j))
     if ctx.thorough:
         P.append(sweep.family_shards(prop, "U-C", j))
+        P.append(sweep.family_shards(prop, "U-G", j))
     else:
         P.append(sweep.family_shards(prop, "U-C", j, stride=4, offset=ctx.seed))
+        P.append(sweep.family_shards(prop, "U-G", j, stride=6, offset=ctx.seed))
     if with_x:
         P.append(sweep.family_shards(prop, "U-X", j))
     return P
@@ -68,7 +70,9 @@ def all_games_plan(prop, ctx, thresholds=False):
     P.append(sweep.family_shards(prop, "U-P2", j, stride=1 if ctx.thorough else 3, offset=ctx.seed))
     if ctx.thorough:
         P.append(sweep.family_shards(prop, "U-C", j))
+        P.append(sweep.family_shards(prop, "U-G", j))
     else:
         P.append(sweep.family_shards(prop, "U-C", j, stride=4, offset=ctx.seed))
+        P.append(sweep.family_shards(prop, "U-G", j, stride=6, offset=ctx.seed))
     P.append(sweep.family_shards(prop, "U-X", j))
     return P
